@@ -473,9 +473,10 @@ def constructed_default_cases(ctx, n):
     out = []
     for _ in range(n):
         elem = r.choice([('int',), ('int',), ('octs',), rec2, ('seqof', ('int',))])
-        # no OPTIONAL member inside a DEFAULT record: the encoders' `component == default` test raises on an unassigned
-        # member of either side (DESIGN.md F20), which is not what this check is about
-        mid = ('seq', [('req', rec2), ('req', ('int',)), ('req', ('seqof', rec2))])
+        # DEFAULT records with OPTIONAL members, absent in the default and/or in the value (the encoders' DEFAULT test is
+        # `component == default`; reads leave placeholders in such members: the class repaired as F20)
+        mid = ('seq', [('req', rec2), ('req', ('int',)), ('req', ('seqof', rec2)),
+                       ('opt', ('imp', (128, 0, 7), ('octs',))), ('opt', ('imp', (128, 0, 8), ('int',)))])
         ft = r.choice([('seqof', elem), ('seqof', elem), rec2 if elem[0] != 'seqof' else ('seqof', elem), mid, mid])
         if ft[0] == 'seqof':
             items = []
@@ -486,8 +487,9 @@ def constructed_default_cases(ctx, n):
             dv = ('list', items)
         else:
             dv = g.val(ft)
-            if ft is mid and not dv[1][2][1]:
-                dv = ('rec', [dv[1][0], dv[1][1], ('list', [g.val(rec2)])])
+            if ft is mid:
+                lst = dv[1][2] if dv[1][2][1] else ('list', [g.val(rec2)])
+                dv = ('rec', [dv[1][0], dv[1][1], lst, dv[1][3] if r.random() < 0.4 else None, dv[1][4] if r.random() < 0.4 else None])
         fields = [('req', ('int',)), (('def', dv), ('imp', (128, 0, 1), ft)), ('opt', ('imp', (128, 0, 2), ('octs',)))]
         if r.random() < 0.4:
             fields.append((('def', ('i', 5)), ('imp', (128, 0, 3), ('int',))))
@@ -505,6 +507,8 @@ def constructed_default_cases(ctx, n):
                     if q < 0.55: vs.append(p[1])                      # equal to the default, assigned explicitly
                     elif q < 0.75: vs.append(None)
                     elif p[1][0] == 'list': vs.append(('list', list(reversed(p[1][1]))))   # same members, another order
+                    elif len(p[1][1]) == 5 and r.random() < 0.6:                              # the default with other OPTIONAL members
+                        vs.append(('rec', list(p[1][1][:3]) + [('o', b'q') if r.random() < 0.5 else None, None]))
                     else: vs.append(g.val(f))
                 elif p == 'opt' and r.random() < 0.5: vs.append(None)
                 elif isinstance(p, tuple) and r.random() < 0.5: vs.append(None)
@@ -656,6 +660,79 @@ def aliasing_checks(ctx, cases):
                                   dict(mm, der=e[1].hex()), finding=codec.classify_roundtrip(T, v, 'DER', False))
 
 
+def safe_eq(a, b):
+    try:
+        return ('ok', bool(a == b), bool(b == a))
+    except Exception as e:  # noqa
+        return ('raised', type(e).__name__)
+
+
+def touch_absent_optionals(node, log, path='v'):
+    """read (instantiate=True) every absent scalar OPTIONAL member of every SEQUENCE/SET inside: leaves placeholders"""
+    n = 0
+    if isinstance(node, univ.Choice):
+        cv = node._componentValues
+        if cv is not univ.noValue and node._currentIdx is not None:
+            n += touch_absent_optionals(cv[node._currentIdx], log, path + '.alt')
+        return n
+    if isinstance(node, univ.SequenceOfAndSetOfBase):
+        cv = node._componentValues
+        if cv is not univ.noValue:
+            for k in sorted(cv):
+                n += touch_absent_optionals(cv[k], log, '%s[%d]' % (path, k))
+        return n
+    if isinstance(node, univ.SequenceAndSetBase):
+        cv = node._componentValues
+        nts = node.componentType.namedTypes
+        for k, nt in enumerate(nts):
+            c = cv[k] if (cv is not univ.noValue and k < len(cv)) else univ.noValue
+            if c is univ.noValue or (not isinstance(c, base_types) and not c.isValue):
+                if nt.isOptional and not isinstance(nt.asn1Object, base_types):
+                    try:
+                        node[k]
+                        n += 1
+                        log.append('%s: read absent OPTIONAL member %d' % (path, k))
+                    except Exception:  # noqa
+                        pass
+            elif isinstance(c, base_types):
+                n += touch_absent_optionals(c, log, '%s.f%d' % (path, k))
+        return n
+    return n
+
+
+base_types = (univ.SequenceOfAndSetOfBase, univ.SequenceAndSetBase)
+
+
+def reads_inert_checks(ctx, cases):
+    """reading absent OPTIONAL members (which leaves schema placeholders behind) changes neither DER/CER, nor what == answers
+    against a twin built without the reads, nor the clone"""
+    for c in cases:
+        T, v = c.T, c.v
+        if base_desc(T)[0] not in CONSTRUCTED or c.want[0] == 'bad':
+            continue
+        x = U.build_value(T, v, spec=U.build_type(T))
+        twin = U.build_value(T, v, spec=U.build_type(T))
+        before = (I.run_encode('DER', x)[:2], I.run_encode('CER', x)[:2], I.run_encode('BER', x)[:2], safe_eq(x, twin))
+        log = []
+        if not touch_absent_optionals(x, log):
+            continue
+        ctx.case(('reads-inert', c.cty, c.cval), True)
+        ctx.stats['values whose absent OPTIONAL members were read'] += 1
+        after = (I.run_encode('DER', x)[:2], I.run_encode('CER', x)[:2], I.run_encode('BER', x)[:2], safe_eq(x, twin))
+        m = {'T': jsonable(T), 'v': jsonable(v), 'reads': log[:20]}
+        for name, a, b in zip(['DER', 'CER', 'BER', '== against a twin built without the reads'], before, after):
+            if a != b:
+                ctx.prop_fail('reading absent OPTIONAL members changed %s' % name, dict(m, before=jsonable(a), after=jsonable(b)))
+        if not has_memberless_record(T, v):
+            y = x.clone(cloneValueFlag=True)
+            ey = (I.run_encode('DER', y)[:2], I.run_encode('CER', y)[:2])
+            if ey != after[:2]:
+                ctx.prop_fail('a clone taken after absent OPTIONAL members were read encodes differently', dict(m, clone=jsonable(ey), original=jsonable(after[:2])))
+            elif safe_eq(y, twin) != before[3]:
+                ctx.prop_fail('a clone taken after absent OPTIONAL members were read compares differently with the twin',
+                              dict(m, clone=jsonable(safe_eq(y, twin)), original=jsonable(before[3])))
+
+
 def fixed_orders(ctx):
     """deterministic histories: every position of a SEQUENCE OF / SET OF first assigned in descending order,
     directly and through an element built in place, against the ascending twin"""
@@ -732,6 +809,7 @@ def run(ctx):
     fixed_orders(ctx)
     fixed_default_orders(ctx)
     aliasing_checks(ctx, cases)
+    reads_inert_checks(ctx, cases)
     for n, c in enumerate(cases):
         for rep in range(2 if base_desc(c.T)[0] in CONSTRUCTED else 1):
             check_case(ctx, c, wild=(n % 5 == 4 and rep == 1), exprs=exprs, meta=meta)
